@@ -217,8 +217,17 @@ def rule_d(model, rep):
     else:
         asg = [x for x in fl[0].body if isinstance(x, ast.Assign)]
         txt = qtext(asg[0].value) if asg else ""
-        lossless = (txt.loose("repr(value)") or txt.loose("str(value)") or txt.loose("float.__repr__")) and not txt.loose(":.") and not txt.loose("%.") and not txt.loose("round(") \
-            and not txt.loose(".rstrip('.')")
+        def leaves(e, conds):
+            if isinstance(e, ast.IfExp):
+                return leaves(e.body, conds + [(ast.unparse(e.test), True)]) + leaves(e.orelse, conds + [(ast.unparse(e.test), False)])
+            return [(e, conds)]
+        # every alternative renders through repr()/str() of the float itself; the one exception is the text '0' for a falsy value
+        # (0 and 0.0 mean the same: no variation) -- an integer-valued float such as 1.0 (= 100%) must keep its '.0' or it re-imports as the int 1
+        lossless = bool(asg)
+        for leaf, conds in (leaves(asg[0].value, []) if asg else []):
+            lt = ast.unparse(leaf)
+            ok = lt in ("repr(value)", "str(value)", "float.__repr__(value)") or (lt == "'0'" and conds in ([("value", False)], [("not value", True)], [("value == 0", True)], [("value != 0", False)]))
+            lossless = lossless and ok
         rep.check(lossless, R, site("CryptContext._render_ini_value"), txt, "a float vary_rounds is rendered with a text that parses back to the same float (and stays a float)",
                   witness="vary_rounds=0.125 is exported as 0.12 (or 1.0 as '1' -> re-imported as the integer 1): the re-imported context differs")
         rep.check("str(value)" in qtext(fl[0].orelse[0]) if fl[0].orelse else False, R, site("CryptContext._render_ini_value"), "else: str(value)", "other numbers via str()")
